@@ -93,6 +93,14 @@ CLAIMS["C14"] = dict(
     technique="table agreement + ladder/call-sequence extraction + guard dominance",
     design="DESIGN.md section 4, C14")
 
+CLAIMS["C11"] = dict(
+    text="Non-interference of the mock tables (every read is the membership test of the checked key, inside its guarded region, or a "
+         "stderr diagnostic), ordering (the mock branch dominates all real verification of that key in EvalChecksig and the CHECKMULTISIG "
+         "loop), sibling agreement of the acceptance predicate map.count(sig) && map.at(sig) == key, and the pair-list parser's storage / "
+         "state-flag / refusal discipline. The grammar of pair lists at value level is not decided.",
+    technique="read-site classification (slice to guard / diagnostics), CFG dominance, sibling predicate normalisation",
+    design="DESIGN.md section 4, C11")
+
 NOT_YET = "check not built yet in this round (see DESIGN.md section 7 build order)"
 
 NA = {
